@@ -47,7 +47,15 @@ def run_one(name, tier, in_repo):
         out["checks"] = {}
         for c in checks:
             env2 = dict(os.environ, CUQIVERIF_REPO=tree) if not in_repo else dict(os.environ)
-            rc = sh("%s check.py %s --tier %s" % (PY, c, tier), env=env2, cwd=HERE, timeout=7200)
+            # --in-repo runs exactly the registered command, which rewrites evidence/<id>.json - with the change applied.  The
+            # evidence file of the unchanged tree is put back afterwards (evidence describes /repo as committed).
+            ev = os.path.join(HERE, "evidence", "%s.json" % c)
+            saved = open(ev, "rb").read() if in_repo and os.path.exists(ev) else None
+            try:
+                rc = sh("%s check.py %s --tier %s" % (PY, c, tier), env=env2, cwd=HERE, timeout=7200)
+            finally:
+                if saved is not None:
+                    open(ev, "wb").write(saved)
             vio = [l for l in rc.stdout.splitlines() if l.startswith("VIOLATION")]
             what = [l.strip() for l in rc.stdout.splitlines() if l.strip().startswith("what:")]
             out["checks"][c] = {"exit": rc.returncode, "violations": len(vio), "first": (what[0][:300] if what else None)}
